@@ -86,10 +86,51 @@ def split_goal(t, depth=0):
     return [t]
 
 
+def resimplify(t):
+    """rebuild select-over-store redexes that a substitution created"""
+    if not isinstance(t, T) or t.op in ("#int", "#str", "#bool", "#const", "#empty"):
+        return t
+    args = tuple(resimplify(a) if isinstance(a, T) else a for a in t.args)
+    if t.op == "select" and args[0].op == "store" and str(args[0].args[1]) == str(args[1]):
+        return args[0].args[2]
+    if all(a is b for a, b in zip(args, t.args)):
+        return t
+    return T(t.op, args, t.sort)
+
+
+def split_append(k, rng, body):
+    """forall k in [0, len(X ++ [e])): P(nth(X ++ [e], k))   ==   (forall k in [0, len(X)): P(nth(X, k)))  and  P(e) at k = len(X).
+    The second conjunct then speaks about the appended element itself (syntactically), which is what the lemma rules match on."""
+    if rng.op != "and" or len(rng.args) != 2:
+        return None
+    lo, hi = rng.args
+    if not (lo.op == "<=" and lo.args[0].op == "#int" and lo.args[0].val == 0 and str(lo.args[1]) == str(k)):
+        return None
+    if not (hi.op == "<" and str(hi.args[0]) == str(k) and hi.args[1].op == "seq.len"):
+        return None
+    C = hi.args[1].args[0]
+    if C.op != "seq.++" or C.args[-1].op != "seq.unit":
+        return None
+    X = Concat(*C.args[:-1]) if len(C.args) > 2 else C.args[0]
+    e = C.args[-1].args[0]
+    body1 = tm.subst_term(body, Nth(C, k), Nth(X, k))
+    if str(C) in str(body1):
+        return None  # the appended list is used other than through its k-th element
+    first = T("#forall", (k, And(lo, Lt(k, Len(X))), body1), BOOL)
+    at = tm.subst(body, {k.args[0]: Len(X)})
+    last = resimplify(tm.subst_term(at, Nth(C, Len(X)), e))
+    if str(C) in str(last):
+        return None
+    return first, last
+
+
 def skolemize(t):
     """drop universal binders in positive positions (bound names are globally unique constants)"""
     if t.op == "#forall":
         k, rng, body = t.args
+        sp = split_append(k, rng, body)
+        if sp is not None:
+            return And(skolemize(sp[0]), skolemize(sp[1]))
         m = {k.args[0]: Const("%s_sk%d" % (k.args[0].split("!")[0], next(_counter)), INT)}
         return Implies(tm.subst(rng, m), skolemize(tm.subst(body, m)))
     if t.op == "and":
@@ -370,6 +411,12 @@ class Run(object):
                 return parse_type(ft[c + "." + f]), c.split(".")[-1] + "__" + f
         if f in ft:
             return parse_type(ft[f]), f
+        # a field nobody declared (e.g. one that a change to the code introduced): if the class' own __init__ initialises it with
+        # a boolean / integer / string literal, that is its type
+        for c in self.engine.mro(cls) if cls else []:
+            ity = self.engine.init_literal_type(c, f)
+            if ity:
+                return parse_type(ity), c.split(".")[-1] + "__" + f
         raise Unsupported("no declared type for field %s (class %s)" % (f, cls))
 
     def field_type(self, cls, f):
@@ -790,7 +837,15 @@ class Run(object):
 
     def named_slice(self, st, seq, lo, hi):
         """python slice; symbolic (clamped) bounds get names so that terms stay small"""
-        t = PySlice(seq, lo, hi)
+        # a bound the enclosing conjunction / the path condition states to be non-negative (0 <= b) needs no clamp
+        known = set(str(g) for g in st.guards) | set(str(g) for g in st.pc)
+
+        def nonneg(b):
+            if tm.syn_nonneg(b) or str(Le(I(0), b)) in known or str(Ge(b, I(0))) in known:
+                return True
+            return b.op == "+" and all(nonneg(a) for a in b.args)
+
+        t = PySlice(seq, lo, hi, nonneg)
         if t.op not in ("seq.extract", "str.substr"):
             return t
         x, a, n = t.args
@@ -1011,11 +1066,6 @@ class Run(object):
         if isinstance(op, (ast.Eq, ast.NotEq)):
             r = self.equal(st, a, b)
             return r if isinstance(op, ast.Eq) else Not(r)
-        if isinstance(a, T) and isinstance(b, T) and {a.sort, b.sort} == {INT, VAL}:
-            if a.sort == VAL:
-                a = self.val_as(st, a, INT, node)
-            else:
-                b = self.val_as(st, b, INT, node)
         if isinstance(op, (ast.Lt, ast.LtE, ast.Gt, ast.GtE)) and (isinstance(a, OptV) or isinstance(b, OptV)):
             # ordering an optional value: TypeError when it is None
             if isinstance(a, OptV):
@@ -1024,6 +1074,11 @@ class Run(object):
             if isinstance(b, OptV):
                 self.check(st, Not(b.isnone), "TypeError", node)
                 b = b.val
+        if isinstance(a, T) and isinstance(b, T) and {a.sort, b.sort} == {INT, VAL}:
+            if a.sort == VAL:
+                a = self.val_as(st, a, INT, node)
+            else:
+                b = self.val_as(st, b, INT, node)
         if isinstance(a, T) and isinstance(b, T) and a.sort == INT and b.sort == INT:
             f = {ast.Lt: Lt, ast.LtE: Le, ast.Gt: Gt, ast.GtE: Ge}[type(op)]
             return f(a, b)
@@ -1275,7 +1330,7 @@ class Run(object):
 
     # ------------------------------------------------------------------ calls
     def ev_Call(self, node, st):
-        if self.spec_mode and isinstance(node.func, ast.Name) and node.func.id in ("old", "forall", "exists", "implies", "entry", "lasthead"):
+        if self.spec_mode and isinstance(node.func, ast.Name) and node.func.id in ("old", "forall", "exists", "implies", "entry", "lasthead", "only_dict"):
             return self.spec_form(node, st)
         f = self.ev(node.func, st)
         if not isinstance(f, (FuncV, ClassV)):
@@ -1318,6 +1373,21 @@ class Run(object):
             if isinstance(v, ListV):
                 return ListV(self.new_cell(st, h2.cells[v.cell][0]), v.elem)
             return v
+        if name == "only_dict":
+            # only_dict(d): of all dictionary objects only d differs from what it was in the old state (object-precise frame, stated
+            # without a quantifier: the heap arrays are equal except at d)
+            o = self.old_state
+            if o is None:
+                raise Unsupported("only_dict() has no reference state here")
+            d = self.as_dict(st, self.ev(node.args[0], st), node)
+            o2 = o.fork()
+            out = []
+            for f in ("__keys__", "__vals__"):
+                ty, hk = self.field_info("builtins.dict", f)
+                cur = self.heap_arr(st, hk, ty)
+                old = self.heap_arr(o2, hk, ty)
+                out.append(Eq(cur, Store(old, d.term, Select(cur, d.term))))
+            return And(*out)
         if name in ("old", "entry"):
             o = self.old_state if name == "old" else (self.entry_states[-1] if self.entry_states else None)
             if o is None:
@@ -2787,6 +2857,10 @@ class Run(object):
                 for k, e in enumerate(ct.get("ensures", [])):
                     goal = self.spec_bool(e, c.st, old=st0, result=val)
                     self.prove(c.st, goal, "post", fdef, str(k + 1))
+                # raises_when is an exact condition (call sites assume it both ways): a normal exit means it did not hold at entry
+                if not ct.get("trusted"):
+                    for exc, cond in sorted(ct.get("raises_when", {}).items()):
+                        self.prove(c.st, Not(self.spec_bool("old(%s)" % cond, c.st, old=st0)), "post", fdef, "returns-only-unless-" + exc)
                 if rt:
                     self.check_return_type(c.st, val, parse_type(rt))
             elif c.kind == "raise":
@@ -2795,6 +2869,10 @@ class Run(object):
                 else:
                     for k, e in enumerate(ct.get("ensures_on_raise", {}).get(c.exc, [])):
                         self.prove(c.st, self.spec_bool(e, c.st, old=st0), "post-raise", fdef, "%s.%d" % (c.exc, k + 1))
+                    if not ct.get("trusted"):
+                        for exc, cond in sorted(ct.get("raises_when", {}).items()):
+                            if exc_matches(c.exc, exc):
+                                self.prove(c.st, self.spec_bool("old(%s)" % cond, c.st, old=st0), "post-raise", fdef, "%s.only-when" % c.exc)
             else:
                 raise Unsupported("break/continue outside loop")
         # frame: anything modified must be declared
